@@ -324,7 +324,7 @@ def fp_impl(url, strip_suffix=False, platform_aware=False):
     def both():
         t = fingerprint_url(url, unsplit=False, strip_suffix=strip_suffix, platform_aware=platform_aware)
         s = fingerprint_url(url, strip_suffix=strip_suffix, platform_aware=platform_aware)
-        return [list(t), s]
+        return [t if isinstance(t, str) else list(t), s]  # a str: the unparseable url, returned as it is
 
     try:
         prepare(url.lower(), {"platform_aware": platform_aware})
@@ -527,6 +527,40 @@ PLAIN_ITEMS = [["a", "1"], ["b", "2"], ["a", "2"], ["a", None], ["a", ""], ["", 
 FRAGMENTS = [None, "", "top", "/route", "!/x", "!", "/", "!/", "x/y", "!x", "/a/b?c=d", "%2Froute", "a b", "%41", "É".lower(), "#", "?"]
 UNPARSEABLE = ["http://[::1", "http://a.com:99999/", "http://a.com:x/", "http://a.com:-1/", "http://]", "http://[x]/", "a.com:99999", "[::1", "http://a]b/",
                "http://a.com:80:80/", "http://u@[::1/", "http://a.com:٣/", "//[", "http://[::1]x/", "http://a.com: 80/"]
+# urls the parser refuses, by shape (FX-C07-FPTOTAL: fingerprint_url used to raise on every one of them —
+# ValueError "too many values to unpack", AttributeError on five characters): bad port, unbalanced / invalid
+# bracket, netloc refused by the NFKC check, five-character strings, very long labels (refused or not: the idna
+# codec's length limit is caught inside attempt_to_decode_idna)
+REFUSED_URLS = [
+    "http://a.com:99999/", "HTTP://WWW.A.com:99999/P?x=1#F", "http://fr.a.co.uk:65536/", "a.com:99999", "//a.com:8x/", "http://a.com:1e3",
+    "http://[x/", "HTTP://[X/", "http://[::1", "[a.b", "http://a.com]/", "http://[a.com]/p", "HTTPS://U:P@[::1/",
+    "http://a\uff0fb.com/", "http://a\uff20b.com/", "http://a\uff1fb.com/p", "http://a\uff03b.com/", "http://a\uff1ab.com/", "HTTP://A\u2100B.com/",
+    "a:b:c", "A:B:c", "x:y:z", "a:b:/", "[::1", "//[::", "a]:80", ":::::", "http:", "a:b@c",
+    "http://" + "a" * 70 + ".com:99999/", "http://" + "\u00e9" * 70 + ".com/", "http://xn--" + "a" * 70 + ".com/", "http://" + "a" * 300 + ".b.com/x",
+    "http://[" + "a" * 70 + ".com/",
+]
+
+
+def refused_url(rng):
+    """a seeded url of one of the refused shapes (most are refused; all are inside the quantifier)"""
+    host = rng.choice(["a.com", "www.a.com", "fr.a.co.uk", "FR-fr.Shop.A.com", "amp-x.b.org", "m.B.com", "xn--tlrama-bvab.fr", "a" * 64 + ".com"])
+    tail = rng.choice(["/", "", "/P?x=1", "/index.html#F", "?utm_source=1", "/a/../b/"])
+    pre = rng.choice(["http://", "HTTPS://", "//", "", "http://u:p@", "ftp://"])
+    k = rng.randrange(6)
+    if k == 0:
+        return pre + host + ":" + rng.choice(["99999", "65536", "8x", "-1", "1e3", "\u0663", "80:80", " 80", "0x50"]) + tail
+    if k == 1:
+        return pre + "[" + host + tail
+    if k == 2:
+        return pre + host + "]" + tail
+    if k == 3:
+        i = rng.randrange(1, len(host))
+        return pre + host[:i] + rng.choice(["\uff0f", "\uff20", "\uff1f", "\uff03", "\uff1a", "\u2100", "\u2488"]) + host[i:] + tail
+    if k == 4:
+        return "".join(rng.choice("ab:./[]AB@") for _ in range(5))
+    return pre + rng.choice(["a", "\u00e9", "xn--a", "-"]) * rng.choice([64, 70, 300]) + "." + host + rng.choice(["", ":99999", "]"]) + tail
+
+
 EMPTYISH = ["", " ", "\t", "\x00", "\n ", "http://", "//", "http:///", "http://?", "http://#", "#", "?", "/", "%", ":", "http:", "://"]
 REDIRECTS = [
     "http://a.com/?url=http%3A%2F%2Fb.com%2Fp", "a.com?url=/z", "a.com/?url=/z", "http://a.com/x?redirect=/z/index.html&y=1",
@@ -607,8 +641,10 @@ def random_norm_parts(rng):
 
 def random_url(rng):
     r = rng.random()
-    if r < 0.04:
+    if r < 0.02:
         return rng.choice(UNPARSEABLE)
+    if r < 0.04:
+        return rng.choice(REFUSED_URLS) if rng.random() < 0.4 else refused_url(rng)
     if r < 0.06:
         return rng.choice(EMPTYISH)
     if r < 0.10:
